@@ -22,6 +22,13 @@
 //	Observation: "<outcome> <started> <shots+discards> <Request-shots> <Response-shots>
 //	<acquired-released> <unfired_ok 0|1> <InstanceStart-InstanceFinish>"
 //
+//	cfgpool <perinst 0|1> <T> <A> <instances> <form>
+//
+//	like burst, but the pool is DECODED FROM A CONFIG through the real plugin registry (coreimport.Import +
+//	config.DecodeAndValidate into engine.Config, mock gun/provider/aggregator registered as plugins);
+//	<form> is how the rps profile of T tokens is written: plain | list1 | list2 | list3 (with an ops:0
+//	pause) | composite | composite2 | const | constlist.  Same observation as burst.
+//
 // Observation line (pool):
 //
 //	<outcome> <acquired> <released> <shots> <discarded> <Request> <Response> <InstanceStart>
@@ -48,7 +55,12 @@ import (
 	"time"
 
 	"github.com/yandex/pandora/core"
+	"github.com/spf13/afero"
 	"github.com/yandex/pandora/core/aggregator/netsample"
+	"github.com/yandex/pandora/core/config"
+	coreimport "github.com/yandex/pandora/core/import"
+	"github.com/yandex/pandora/core/plugin"
+	"github.com/yandex/pandora/core/register"
 	"github.com/yandex/pandora/core/engine"
 	"github.com/yandex/pandora/core/schedule"
 	"github.com/yandex/pandora/lib/monitoring"
@@ -226,26 +238,41 @@ func ms(s string) time.Duration {
 	return time.Duration(n) * time.Millisecond
 }
 
+func onePart(p string) core.Schedule {
+	f := strings.Split(p, ":")
+	num := func(i int) float64 { v, _ := strconv.ParseFloat(f[i], 64); return v }
+	in := func(i int) int64 { v, _ := strconv.ParseInt(f[i], 10, 64); return v }
+	switch f[0] {
+	case "once":
+		return schedule.NewOnce(in(1))
+	case "const":
+		return schedule.NewConst(num(1), ms(f[2]))
+	case "step":
+		return schedule.NewStep(num(1), num(2), in(3), ms(f[4]))
+	case "line":
+		return schedule.NewLine(num(1), num(2), ms(f[3]))
+	case "istep":
+		return schedule.NewInstanceStep(in(1), in(2), in(3), ms(f[4]))
+	}
+	panic("bad schedule part " + p)
+}
+
+// spec: parts joined by '+'; a part is once:n | const:ops:ms | step:... | line:... | istep:... |
+// rep:K:p1,p2,...  (K repetitions of the comma separated parts)
 func buildSched(spec string) core.Schedule {
 	var parts []core.Schedule
 	for _, p := range strings.Split(spec, "+") {
-		f := strings.Split(p, ":")
-		num := func(i int) float64 { v, _ := strconv.ParseFloat(f[i], 64); return v }
-		in := func(i int) int64 { v, _ := strconv.ParseInt(f[i], 10, 64); return v }
-		switch f[0] {
-		case "once":
-			parts = append(parts, schedule.NewOnce(in(1)))
-		case "const":
-			parts = append(parts, schedule.NewConst(num(1), ms(f[2])))
-		case "step":
-			parts = append(parts, schedule.NewStep(num(1), num(2), in(3), ms(f[4])))
-		case "line":
-			parts = append(parts, schedule.NewLine(num(1), num(2), ms(f[3])))
-		case "istep":
-			parts = append(parts, schedule.NewInstanceStep(in(1), in(2), in(3), ms(f[4])))
-		default:
-			panic("bad schedule spec " + spec)
+		if strings.HasPrefix(p, "rep:") {
+			f := strings.SplitN(p, ":", 3)
+			k, _ := strconv.Atoi(f[1])
+			for i := 0; i < k; i++ {
+				for _, q := range strings.Split(f[2], ",") {
+					parts = append(parts, onePart(q))
+				}
+			}
+			continue
 		}
+		parts = append(parts, onePart(p))
 	}
 	return schedule.NewComposite(parts...)
 }
@@ -317,6 +344,104 @@ func runBurst(f []string) string {
 	case <-time.After(60 * time.Second):
 		return "hang"
 	}
+	_ = T
+	return burstObs(outcome, perInst, prov, ag, &shots, metrics)
+}
+
+// ---- cfgpool: the pool is decoded from a config through the real plugin registry, the way the
+// CLI builds pools (coreimport.Import + config.DecodeAndValidate into engine.Config)
+
+var registryMu sync.Mutex // the plugin registry and the config hooks are process-wide
+
+func rpsForm(form string, T int) interface{} {
+	once := func(n int) map[string]interface{} { return map[string]interface{}{"type": "once", "times": n} }
+	switch form {
+	case "plain":
+		return once(T)
+	case "list1":
+		return []interface{}{once(T)}
+	case "list2":
+		return []interface{}{once(T / 2), once(T - T/2)}
+	case "list3":
+		return []interface{}{once(T / 3), map[string]interface{}{"type": "const", "ops": 0, "duration": "2ms"}, once(T - T/3)}
+	case "composite":
+		return map[string]interface{}{"type": "composite", "nested": []interface{}{once(T)}}
+	case "composite2":
+		return map[string]interface{}{"type": "composite", "nested": []interface{}{once(T - T/2), once(T / 2)}}
+	case "const":
+		return map[string]interface{}{"type": "const", "ops": T * 100, "duration": "10ms"}
+	case "constlist":
+		return []interface{}{map[string]interface{}{"type": "const", "ops": T * 100, "duration": "10ms"}}
+	}
+	panic("bad rps form " + form)
+}
+
+func runCfgPool(f []string) string {
+	perInst := f[1] == "1"
+	T, _ := strconv.Atoi(f[2])
+	A, _ := strconv.Atoi(f[3])
+	n, _ := strconv.Atoi(f[4])
+	prov := &burstProvider{}
+	prov.left.Store(int64(A))
+	ag := &burstAggr{}
+	var shots atomic.Int64
+
+	registryMu.Lock()
+	defer registryMu.Unlock()
+	plugin.SetDefaultRegistry(plugin.NewRegistry())
+	config.SetHooks(config.DefaultHooks())
+	defer func() {
+		plugin.SetDefaultRegistry(plugin.NewRegistry())
+		config.SetHooks(config.DefaultHooks())
+	}()
+	coreimport.Import(afero.NewMemMapFs())
+	register.Gun("verif-gun", func() core.Gun { return &burstGun{shots: &shots} })
+	register.Provider("verif-ammo", func() core.Provider { return prov })
+	register.Aggregator("verif-aggr", func() core.Aggregator { return ag })
+	input := map[string]interface{}{
+		"pools": []interface{}{
+			map[string]interface{}{
+				"id":               "p",
+				"ammo":             map[string]interface{}{"type": "verif-ammo"},
+				"result":           map[string]interface{}{"type": "verif-aggr"},
+				"gun":              map[string]interface{}{"type": "verif-gun"},
+				"rps-per-instance": perInst,
+				"rps":              rpsForm(f[5], T),
+				"startup":          map[string]interface{}{"type": "once", "times": n},
+				"discard_overflow": false,
+			},
+		},
+	}
+	var conf engine.Config
+	if err := config.DecodeAndValidate(input, &conf); err != nil {
+		return "decode-error"
+	}
+	metrics := engine.Metrics{
+		Request:        &monitoring.Counter{},
+		Response:       &monitoring.Counter{},
+		InstanceStart:  &monitoring.Counter{},
+		InstanceFinish: &monitoring.Counter{},
+	}
+	eng := engine.New(zap.NewNop(), metrics, conf)
+	done := make(chan error, 1)
+	go func() {
+		err := eng.Run(context.Background())
+		eng.Wait()
+		done <- err
+	}()
+	outcome := "ok"
+	select {
+	case err := <-done:
+		if err != nil {
+			outcome = "err"
+		}
+	case <-time.After(60 * time.Second):
+		return "hang"
+	}
+	return burstObs(outcome, perInst, prov, ag, &shots, metrics)
+}
+
+func burstObs(outcome string, perInst bool, prov *burstProvider, ag *burstAggr, shots *atomic.Int64, metrics engine.Metrics) string {
 	started := metrics.InstanceStart.Get()
 	total := shots.Load() + ag.discarded.Load()
 	unfired := prov.acquired.Load() - total
@@ -324,7 +449,6 @@ func runBurst(f []string) string {
 	if !perInst {
 		unfiredOK = unfired >= 0 && unfired <= started-1
 	}
-	_ = T
 	return fmt.Sprintf("%s %d %d %d %d %d %s %d", outcome, started, total, metrics.Request.Get()-shots.Load(),
 		metrics.Response.Get()-shots.Load(), prov.acquired.Load()-prov.released.Load(), vh.B(unfiredOK || started == 0),
 		started-metrics.InstanceFinish.Get())
@@ -334,6 +458,9 @@ func runCase(c string) string {
 	f := strings.Split(c, " ")
 	if f[0] == "burst" && len(f) == 6 {
 		return runBurst(f)
+	}
+	if f[0] == "cfgpool" && len(f) == 6 {
+		return runCfgPool(f)
 	}
 	if f[0] != "pool" || len(f) != 9 {
 		return "unknown-case"
@@ -573,9 +700,47 @@ func gen(r *vh.Rand, tier string) []string {
 	var out []string
 	// high contention: many instances, zero-cost shots, 10^4..10^5 tokens
 	out = append(out, "burst 0 40000 1000000 16 once:40000", "burst 1 3000 1000000 32 once:3000")
+	// shared composite profiles of many small parts (incl. empty ones): hundreds of part boundaries
+	// with several fast instances racing at each
+	out = append(out, "burst 0 3000 3000 8 rep:3000:once:1", "burst 0 3000 1000000 8 rep:1500:once:2,once:0",
+		"burst 0 1200 1000000 6 rep:400:once:3,const:0:0", "burst 0 2000 1999 4 rep:1000:once:1,once:1")
+	// pools decoded from a config: every way of writing the profile x shared / per instance
+	for _, form := range []string{"plain", "list1", "list2", "list3", "composite", "composite2", "const", "constlist"} {
+		for _, per := range []string{"0", "1"} {
+			out = append(out, fmt.Sprintf("cfgpool %s %d %d %d %s", per, r.Range(20, 60), 1000000, r.Range(2, 6), form))
+		}
+	}
+	out = append(out, "cfgpool 1 25 60 4 list1", "cfgpool 0 25 10 4 list2")
 	nb := 0
 	if tier == "thorough" {
 		nb = 40
+		for i := 0; i < 60; i++ {
+			k := r.Range(300, 4000)
+			inner := r.Pick([]string{"once:1", "once:2,once:0", "once:1,once:1", "once:3,const:0:0", "once:0,once:2", "once:1,const:0:0,once:0"})
+			per := 0
+			for _, q := range strings.Split(inner, ",") {
+				if strings.HasPrefix(q, "once:") {
+					v, _ := strconv.Atoi(q[5:])
+					per += v
+				}
+			}
+			T := k * per
+			A := 1000000
+			if r.Bool() {
+				A = r.Range(T/2, T)
+			}
+			out = append(out, fmt.Sprintf("burst 0 %d %d %d rep:%d:%s", T, A, r.PickInt([]int{4, 8, 16}), k, inner))
+		}
+		forms := []string{"plain", "list1", "list2", "list3", "composite", "composite2", "const", "constlist"}
+		for i := 0; i < 60; i++ {
+			T := r.Range(3, 200) // every part of a split profile keeps at least one token (once: times >= 1 is validated)
+			inst := r.Range(1, 12)
+			A := 1000000
+			if r.Chance(1, 3) {
+				A = r.Range(0, T*inst+3)
+			}
+			out = append(out, fmt.Sprintf("cfgpool %s %d %d %d %s", vh.B(r.Bool()), T, A, inst, r.Pick(forms)))
+		}
 	}
 	for i := 0; i < nb; i++ {
 		inst := r.PickInt([]int{16, 24, 32, 48, 64})
